@@ -475,6 +475,33 @@ def run(idx, rep, tier):
                     rep.refuted("slice-roundtrip", f"{f.short}:slice(*indices)", f"`{ast.unparse(c)}`: slice(*s.indices(n)) is not the same slice for negative steps with an open stop "
                                 "(slice(None, None, -1).indices(5) = (4, -1, -1), and slice(4, -1, -1) is empty)", detail="idiom", locs=[idx.loc(f.module, c)])
     rep.count("slice-roundtrip", proved=1 if not n_idiom else 0)
+    # ---- 7. outer, not paired, selection: `X[rows, cols]` with the two stored index objects in ONE subscript pairs two index arrays
+    # element-wise (NumPy / torch / jax advanced indexing): a k-vector of entries instead of the k-by-k sub-matrix.  Sliced admits index
+    # arrays on both axes, so its methods must select axis by axis (`X[rows][:, cols]`, np.ix_) whenever both objects may be arrays.
+    n_paired = 0
+    for m in sl.methods.values():
+        if m.name == "__init__":
+            continue
+        # local names of the two stored index objects (`rows, cols = self.slices`)
+        names = {0: {"self.slices[0]"}, 1: {"self.slices[1]"}}
+        for v_name, vals in df.assignments(m.node).items():
+            for v, p_, st in vals:
+                if nospace(v) == "self.slices" and p_ is not None and len(p_) == 1 and p_[0] in (0, 1):
+                    names[p_[0]].add(v_name)
+                elif p_ is None and nospace(v) in ("self.slices[0]", "self.slices[1]"):
+                    names[int(nospace(v)[-2])].add(v_name)
+        for n in df.body_nodes(m.node):
+            if not (isinstance(n, ast.Subscript) and isinstance(n.ctx, ast.Load)):
+                continue
+            sl_ = n.slice
+            whole = nospace(sl_) == "self.slices"
+            both = isinstance(sl_, ast.Tuple) and any(nospace(e) in names[0] for e in sl_.elts) and any(nospace(e) in names[1] for e in sl_.elts)
+            if whole or both:
+                n_paired += 1
+                rep.refuted("outer-selection", f"Sliced.{m.name}", f"`{nospace(n)[:70]}` indexes with both stored index objects in one subscript: two index arrays are paired "
+                            "element-wise (a vector of k entries), not crossed into the k-by-k sub-matrix the operator represents", detail="paired", locs=[idx.loc(m.module, n)])
+    if not n_paired:
+        rep.proved("outer-selection", "Sliced", "no method of Sliced indexes an array with both stored index objects in one subscript", locs=[idx.loc(sl.module, sl.node)])
     rep.floor("canonical-vector", 2)
     rep.floor("slice-buffers", 4)
     rep.floor("attribute-exists", 30)
